@@ -51,7 +51,7 @@ type WsSpec struct {
 type Timing struct {
 	When string `json:"when"` // "write-enter"
 	N    int    `json:"n"`
-	Do   string `json:"do"` // "stopstart" | "fail" (the N-th storage write returns an I/O error; Start again after the torrent stopped)
+	Do   string `json:"do"` // "stopstart" | "fail" (the N-th storage write returns an I/O error; Start again after the torrent stopped) | "slow" (every write takes N ms)
 }
 
 type Scenario struct {
@@ -96,9 +96,9 @@ func layoutByName(name string, unit int) (vh.Layout, bool) {
 	if name == "padwhole" {
 		return vh.PadWholeLayout(unit), true
 	}
-	// "many<N>" / "manymulti<N>": N full pieces of 16*unit bytes (256 KiB for unit 16384) plus a short last piece, so that a
+	// "many<N>" / "manymulti<N>" / "manyfiles<N>": N full pieces of 16*unit bytes (256 KiB for unit 16384) plus a short last piece, so that a
 	// web-seed request (5% of the pieces) spans several pieces; the multi-file form has file boundaries inside pieces.
-	for _, pre := range []string{"manymulti", "many"} {
+	for _, pre := range []string{"manyfiles", "manymulti", "many"} {
 		if !strings.HasPrefix(name, pre) {
 			continue
 		}
@@ -110,6 +110,15 @@ func layoutByName(name string, unit int) (vh.Layout, bool) {
 		total := int64(n)*pl + 777
 		if pre == "many" {
 			return vh.Layout{Name: name, PieceLen: int(pl), Files: []vh.FileSpec{{Length: total}}}, true
+		}
+		if pre == "manyfiles" { // a file boundary inside (almost) every web-seed range: files of about one and a half pieces
+			files := []vh.FileSpec{}
+			for rest, i := total, 0; rest > 0; i++ {
+				ln := min(rest, pl+pl/2+int64(i%7)*13)
+				files = append(files, vh.FileSpec{Path: []string{fmt.Sprintf("d%d", i%3), fmt.Sprintf("f%03d.bin", i)}, Length: ln})
+				rest -= ln
+			}
+			return vh.Layout{Name: name, PieceLen: int(pl), Files: files}, true
 		}
 		parts := []int64{total * 3 / 10, total / 10, 1, total / 4}
 		files := []vh.FileSpec{}
@@ -485,6 +494,12 @@ func run(sc Scenario, dir string) {
 	r.prov.Quiet = true
 	cfg.CustomStorage = r.prov
 	cfg.RequestTimeout = 1200 * time.Millisecond
+	// The body-read timer of a web-seed download keeps running while the downloader waits to hand over a piece (result channel
+	// suspended during a piece write); on a loaded machine a write into the recording storage can take seconds, the source would be
+	// disabled for a minute and the bounded-time completion judgement would blame the client for the harness's slowness.
+	cfg.WebseedResponseBodyReadTimeout = 30 * time.Second
+	cfg.WebseedResponseHeaderTimeout = 15 * time.Second
+	cfg.WebseedDialTimeout = 10 * time.Second
 	if sc.Endgame > 0 {
 		cfg.EndgameMaxDuplicateDownloads = sc.Endgame
 	}
@@ -494,10 +509,11 @@ func run(sc Scenario, dir string) {
 	npl := make([]int, tor.NumPieces)
 	plen := make([]int, tor.NumPieces)
 	good0 := []int{}
+	cls0 := r.prov.Store(r.id).PieceClasses(tor)
 	for i := range npl {
 		npl[i] = tor.NonPadLen(i)
 		plen[i] = tor.PieceLenOf(i)
-		if sc.Prefill != "" && sc.Prefill != "none" && npl[i] > 0 && r.prov.Store(r.id).PieceClass(tor, i) == "good" {
+		if sc.Prefill != "" && sc.Prefill != "none" && npl[i] > 0 && cls0[i] == "good" {
 			good0 = append(good0, i)
 		}
 	}
@@ -516,7 +532,15 @@ func run(sc Scenario, dir string) {
 	var gated atomic.Bool
 	var faulted atomic.Bool
 	for _, tm := range sc.Timing {
-		if tm.When == "write-enter" && tm.Do == "fail" {
+		if tm.When == "write-enter" && tm.Do == "slow" { // slow disk: every storage write takes N ms (the piece buffer is in use that long)
+			d := time.Duration(tm.N) * time.Millisecond
+			r.prov.SetHook(func(phase, op, tid, name string, off int64, ln int) error {
+				if phase == "enter" && op == "write" {
+					time.Sleep(d)
+				}
+				return nil
+			})
+		} else if tm.When == "write-enter" && tm.Do == "fail" {
 			n := int64(tm.N)
 			r.prov.SetHook(func(phase, op, tid, name string, off int64, ln int) error {
 				if phase == "enter" && op == "write" && writeN.Add(1) == n {
@@ -725,15 +749,36 @@ func run(sc Scenario, dir string) {
 	if to == 0 {
 		to = 8 * time.Second
 	}
+	// completion is awaited until nothing has progressed (pieces had, metadata known) for the scenario's time-out; the total wait
+	// is capped at four time-outs. A stuck download is reported after one time-out of silence, a slow one (loaded machine) is not.
 	awaitComplete := func(complete <-chan struct{}) bool {
-		select {
-		case <-complete:
-			st := tr.Stats()
-			T.Emit(vh.Ev{"ev": "complete", "filesOK": r.prov.Store(r.id).Complete(tor), "status": st.Status.String(), "have": int(st.Pieces.Have)})
-			return true
-		case <-time.After(to):
+		start := time.Now()
+		last := start
+		prog := -1
+		tk := time.NewTicker(100 * time.Millisecond)
+		defer tk.Stop()
+		for {
+			select {
+			case <-complete:
+				st := tr.Stats()
+				T.Emit(vh.Ev{"ev": "complete", "filesOK": r.prov.Store(r.id).Complete(tor), "status": st.Status.String(), "have": int(st.Pieces.Have)})
+				return true
+			case <-tk.C:
+			}
 			sn := hub.Get(r.id)
-			e := vh.Ev{"ev": "timeout", "what": "complete"}
+			if sn != nil {
+				p := len(sn.Have)
+				if sn.HasInfo {
+					p++
+				}
+				if p != prog {
+					prog, last = p, time.Now()
+				}
+			}
+			if time.Since(last) < to && time.Since(start) < 4*to {
+				continue
+			}
+			e := vh.Ev{"ev": "timeout", "what": "complete", "silentMs": time.Since(last).Milliseconds(), "waitedMs": time.Since(start).Milliseconds()}
 			if sn != nil {
 				e["status"], e["have"], e["peers"], e["downloads"] = sn.Status, len(sn.Have), sn.Peers, sn.Downloads
 				e["banned"] = sn.Banned
@@ -763,10 +808,7 @@ func run(sc Scenario, dir string) {
 			seq0 = sn.Seq
 		}
 		damaged := damage(r.prov.Store(r.id), tor, p)
-		cls := make([]string, tor.NumPieces)
-		for i := range cls {
-			cls[i] = r.prov.Store(r.id).PieceClass(tor, i)
-		}
+		cls := r.prov.Store(r.id).PieceClasses(tor)
 		T.Emit(vh.Ev{"ev": "cmd", "op": "verify", "damaged": damaged, "piece": p})
 		tr.Verify()
 		// The loop has taken the command (it drops its bitfield before anything else), so from here on every claim is judged
@@ -819,10 +861,7 @@ func run(sc Scenario, dir string) {
 	}
 	sess.Close()
 	// what the storage holds now, and what the resume database claims
-	cls := make([]string, tor.NumPieces)
-	for i := range cls {
-		cls[i] = r.prov.Store(r.id).PieceClass(tor, i)
-	}
+	cls := r.prov.Store(r.id).PieceClasses(tor)
 	T.Emit(vh.Ev{"ev": "disk", "class": cls})
 	bits, found, err := readResume(cfg.Database, r.id)
 	e := vh.Ev{"ev": "resume", "found": found, "bits": bits}
